@@ -359,8 +359,17 @@ func (c *xsyncMapOf[K, V]) DeleteExpired() {
 	c.items.Range(func(k K, v itemOf[V]) bool {
 		i := v
 		if i.expiredWithNow(now) {
-			c.items.Delete(k)
-			if ec != nil {
+			// The traversal works on a copy: delete only if k still holds
+			// an expired item, and report the item actually removed.
+			removed := false
+			c.items.Compute(k, func(value itemOf[V], loaded bool) (itemOf[V], bool) {
+				if loaded && value.expiredWithNow(now) {
+					i, removed = value, true
+					return value, true
+				}
+				return value, !loaded
+			})
+			if removed && ec != nil {
 				evictedItems = append(evictedItems, kvOf[K, V]{k, i.v})
 			}
 		}
